@@ -115,8 +115,8 @@ func (a *HArena) Allocate(sz capnp.Size, segs map[capnp.SegmentID]*capnp.Segment
 // ---- framings ----
 
 const (
-	FBare = iota // SingleSegment / MultiSegment arena over the slab segments
-	FHarness     // HArena over the slab segments
+	FBare    = iota // SingleSegment / MultiSegment arena over the slab segments
+	FHarness        // HArena over the slab segments
 	FUnmarshal
 	FUnmarshalPacked
 	FDecoder
